@@ -48,9 +48,11 @@ structure D where
   nA : Nat := 0
   neterr : Nat := 0
 
+/-- the manager is about to call the response hook (the harness' gate `rhook` sits inside it) -/
 def headIsResp (s : State) : Bool :=
   match s.mphase, s.mbox with
-  | .idle, .responses .. :: _ => true
+  | .idle, .responses p _ _ _ :: _ =>
+    if GS.Generated.ReqLifecycleSpec.hooksAfterPeerFilter then s.reg == .live && p == s.peer else true
   | _, _ => false
 
 def parkedWork (d : D) : Bool := d.s.w == .popped && d.gWork && !d.tWork
